@@ -1,0 +1,36 @@
+// Copyright 2026 Dolthub, Inc.
+//
+// Licensed under the Apache License, Version 2.0 (the "License");
+// you may not use this file except in compliance with the License.
+// You may obtain a copy of the License at
+//
+//     http://www.apache.org/licenses/LICENSE-2.0
+//
+// Unless required by applicable law or agreed to in writing, software
+// distributed under the License is distributed on an "AS IS" BASIS,
+// WITHOUT WARRANTIES OR CONDITIONS OF ANY KIND, either express or implied.
+// See the License for the specific language governing permissions and
+// limitations under the License.
+
+//go:build verif
+
+package tree
+
+// Read-only accessors used by the /verif correspondence harness (property C12).
+// Add-only; compiled only with -tags verif.
+
+// VerifSplitDecisions feeds the items of one run (the items of a chunk, starting
+// right after a boundary) to a fresh node splitter of the given tree level, as
+// chunker.append does, and returns CrossedBoundary() after each item. The
+// chunker itself is not involved.
+func VerifSplitDecisions(level int, keys, values []Item) []bool {
+	sp := defaultSplitterFactory(uint8(level % 256))
+	out := make([]bool, len(keys))
+	for i := range keys {
+		if err := sp.Append(keys[i], values[i]); err != nil {
+			panic(err)
+		}
+		out[i] = sp.CrossedBoundary()
+	}
+	return out
+}
